@@ -1,4 +1,5 @@
 import Anything.Model.Cli
+import Anything.Spec.PinnedIds
 import Anything.Lemmas.PrintedParse
 import Mathlib.Tactic.ByContra
 import Anything.Generated.Knobs
@@ -111,6 +112,15 @@ theorem C19_cli_spec :
     (⟨Anything.Generated.Knobs.cliLimit, Anything.Generated.Knobs.cliExponentLimit,
       Anything.Generated.Knobs.cliShowContinuation⟩ : Display.Spec) =
     { limit := 12, exponentLimit := 12, showContinuation := true } := rfl
+
+/-- **C19 (display names are the recorded ones).** The singular and plural spelling of
+every derived unit in the table extracted from the current source are those recorded at
+the pinned commit (`Spec/PinnedIds.lean`, human-reviewed): the model's — and the binary's —
+choice between them is then the property's "pluralised only when the value is not one". -/
+theorem C19_names_pinned :
+    Anything.Spec.Pinned.names.all (fun p =>
+      (Anything.Generated.units.find? (fun u => u.id == p.1)).map (fun u => (u.sing, u.plur)) == some (p.2.1, p.2.2)) = true := by
+  decide +kernel
 
 /-! ### The printed power of a unit -/
 
